@@ -24,6 +24,12 @@ type c20Handler struct {
 	Caps []int `json:"caps"`
 	Ev   int   `json:"ev"` // 0 = empty event name; n > 0 = "event<9000+n>" (a node that does not exist: evdev.Open fails)
 	HW   int   `json:"hw"` // 0 = hardware id derived from ID (unique); n > 0 = shared hardware id n (interfaces of one composite device)
+	// fields of DeviceInfo the grouping and the types must not depend on: the bus of the hardware id (0 = USB 3; 5 = Bluetooth, 6 = virtual, 0x11 = i8042 ...),
+	// the unique identification string, the sysfs path and the property list
+	Bus   int    `json:"bus"`
+	Uniq  string `json:"uniq"`
+	Sysfs string `json:"sysfs"`
+	Props []int  `json:"props"`
 }
 
 type c20Case struct {
@@ -91,6 +97,13 @@ func c20Info(h c20Handler) DeviceInfo {
 	}
 	if h.Ev > 0 {
 		di.eventName = "event" + strconv.Itoa(9000+h.Ev)
+	}
+	if h.Bus > 0 {
+		di.ID.Bus = uint16(h.Bus)
+	}
+	di.Uniq, di.Sysfs = h.Uniq, h.Sysfs
+	for _, p := range h.Props {
+		di.Properties = append(di.Properties, evdev.EvProp(p))
 	}
 	return di
 }
